@@ -48,6 +48,11 @@ func SelfTest() error {
 	if !g.Add(g.Neg()).Inf {
 		return fmt.Errorf("G + -G != O")
 	}
+	// the endomorphism: Beta != 1, Beta^3 = 1, (Beta*x, y) on the curve and of order n
+	b3 := new(big.Int).Exp(Beta, big3, P)
+	if Beta.Cmp(big1) == 0 || b3.Cmp(big1) != 0 || !g.Endo().Valid() || g.Endo().Eq(g) || !g.Endo().Endo().Endo().Eq(g) || !g.Endo().Mul(N).Inf {
+		return fmt.Errorf("endomorphism constant wrong")
+	}
 	nm1 := new(big.Int).Sub(N, big1)
 	if !BaseMul(nm1).Eq(g.Neg()) {
 		return fmt.Errorf("(n-1)G != -G")
